@@ -3,6 +3,7 @@
 // job: {id, entry: xml_buffer|xml_file|xml_fd|xta|none, text, newxta, builder: document|pretty|tiga|property,
 //       trees, structure, exprs:[{text,part}], queries:[text], write_xml: path, timeout}
 #include "dump.hpp"
+#include "jobloop.hpp"
 
 #include "utap/DocumentBuilder.hpp"
 #include "utap/ExpressionBuilder.hpp"
@@ -156,68 +157,4 @@ static json run_job(const json& job)
     return out;
 }
 
-int main(int argc, char** argv)
-{
-    if (argc < 3) { std::cerr << "usage: model_run jobs.ndjson out.ndjson\n"; return 2; }
-    std::ifstream in(argv[1]);
-    std::ofstream out(argv[2]);
-    std::string line;
-    std::string errfile = std::string(argv[2]) + ".stderr";
-    std::string resfile = std::string(argv[2]) + ".res";
-    while (std::getline(in, line)) {
-        if (line.empty()) continue;
-        json job = json::parse(line);
-        int timeout = job.value("timeout", 20);
-        auto t0 = std::chrono::steady_clock::now();
-        pid_t pid = fork();
-        if (pid == 0) {
-            int fd = open(errfile.c_str(), O_WRONLY | O_CREAT | O_TRUNC, 0644);
-            dup2(fd, 2);
-            int dn = open("/dev/null", O_WRONLY);
-            dup2(dn, 1);  // library code prints to stdout in places
-            alarm(timeout);
-            struct rlimit rl{(rlim_t)job.value("stack_mb", 64) * 1024 * 1024, (rlim_t)job.value("stack_mb", 64) * 1024 * 1024};
-            json res;
-            try { res = run_job(job); } catch (const std::exception& e) { res = json{{"id", job["id"]}, {"outcome", "harness-error"}, {"what", e.what()}}; }
-            std::ofstream r(resfile);
-            r << res.dump(-1, ' ', false, json::error_handler_t::replace) << "\n";
-            r.close();
-            _exit(0);
-        }
-        int st = 0;
-        struct rusage ru{};
-        wait4(pid, &st, 0, &ru);
-        double ms = std::chrono::duration<double, std::milli>(std::chrono::steady_clock::now() - t0).count();
-        json res;
-        bool ok = false;
-        if (WIFEXITED(st) && WEXITSTATUS(st) == 0) {
-            std::ifstream r(resfile);
-            std::string l;
-            if (std::getline(r, l)) { try { res = json::parse(l); ok = true; } catch (...) {} }
-        }
-        if (!ok) {
-            res = json{{"id", job["id"]}};
-            if (WIFSIGNALED(st)) { res["outcome"] = WTERMSIG(st) == SIGALRM ? "timeout" : "signal"; res["sig"] = WTERMSIG(st); }
-            else { res["outcome"] = "abnormal-exit"; res["status"] = WIFEXITED(st) ? WEXITSTATUS(st) : -1; }
-            std::ifstream e(errfile);
-            std::string all((std::istreambuf_iterator<char>(e)), std::istreambuf_iterator<char>());
-            if (all.size() > 6000) all = all.substr(0, 6000);
-            res["stderr"] = all;
-        } else {
-            // sanitizer reports that did not kill the process (UBSan)
-            std::ifstream e(errfile);
-            std::string all((std::istreambuf_iterator<char>(e)), std::istreambuf_iterator<char>());
-            if (all.find("runtime error:") != std::string::npos || all.find("ERROR: AddressSanitizer") != std::string::npos) {
-                if (all.size() > 4000) all = all.substr(0, 4000);
-                res["sanitizer"] = all;
-            }
-        }
-        res["ms"] = ms;
-        res["maxrss_kb"] = ru.ru_maxrss;
-        unlink(resfile.c_str());
-        out << res.dump(-1, ' ', false, json::error_handler_t::replace) << "\n";
-        out.flush();
-    }
-    unlink(errfile.c_str());
-    return 0;
-}
+int main(int argc, char** argv) { return vh::jobloop_main(argc, argv, run_job); }
